@@ -292,6 +292,22 @@ def r4(rep, prog):
                   "Connection::run can return without telling the broker (no client_shutdown / client_error / broker_shutdown on the path)", line=rb.span,
                   detail={"tokens": [list(t) for t in toks], "shape": str(shape)})
     rep.floor("C09-R4", "exit paths of Connection::run", n, 4)
+    # the same as a reachability fact, without the leniency for Err exits: the only ways out that do not pass an
+    # end-of-life call are "the broker is gone" — the UnexpectedShutdown value, or a failed forward to the broker
+    eol = set(c.bb for c in rb.calls if c.name in END_OF_LIFE and (c.callee or "").startswith("aldrin_broker::conn::Connection"))
+    gone = set()
+    for i in rb.live_blocks():
+        for st in rb.blocks[i]["s"]:
+            r = st["r"]
+            if r["k"] == "agg" and r.get("ak") == "adt" and r["adt"].endswith("ConnectionError") and r.get("variant") == "UnexpectedShutdown":
+                gone.add(i)
+    fwd_failed = rb.edges_matching([r"^Break=discr\(.*Connection::send_broker_msg\("])
+    # `handle.take().unwrap()` etc. before the loop are not exits
+    reach = rb.reachable(0, without_nodes=eol | gone, without_edges=fwd_failed)
+    leak = sorted(set(rb.exits()) & reach)
+    rep.check(bool(eol) and bool(gone) and not leak, "C09-R4", rb.def_, "every-exit-informs-the-broker",
+              "Connection::run can end without client_shutdown / client_error / broker_shutdown although the broker is still there (not the UnexpectedShutdown case, not a failed forward to the broker): the broker keeps everything the dead connection owned",
+              line=rb.span, detail={"eol_sites": len(eol), "broker_gone_sites": len(gone), "failed_forward_edges": len(fwd_failed)})
     # the Err exits without end-of-life step must be the UnexpectedShutdown ones: check that every
     # `return Err` aggregate outside the EOL-guarded arms is ConnectionError::UnexpectedShutdown or
     # comes from send_broker_msg's `?`
